@@ -309,6 +309,11 @@ def _make_corr_cov_func(
             for j in range(i + assume_ones_diagonal, size):
                 vals[i, j] = stairs_method(self.data[i], self.data[j], where=where)
                 vals[j, i] = vals[i, j]
+            if assume_ones_diagonal and np.isnan(
+                stairs_method(self.data[i], self.data[i], where=where)
+            ):
+                # undefined self-correlation (zero variance or no defined piece in the window)
+                vals[i, i] = np.nan
         return vals
 
     return func
